@@ -34,7 +34,7 @@ use crate::pushio::*;
 use crate::*;
 
 pub const PROP: Prop = Prop { name: "C16", gen, run };
-pub const NOPS: usize = 31;
+pub const NOPS: usize = 36;
 
 struct Alpha(Vec<i64>);
 impl Distribution<i64> for Alpha {
@@ -57,6 +57,21 @@ fn triple<O>(seed: u64, mk: impl Fn() -> O, call: impl Fn(&O, &mut Sm) -> Tree) 
     }
     let rc = run(&used, Sm::new(seed));
     tl![ra, rb, rc]
+}
+/// like `triple`, but the three runs use ARGUMENTS that are equal as values and differ in their allocation
+/// (exact capacity / spare capacity): the outcome is a function of the values
+fn triple_args<O>(seed: u64, mk: impl Fn() -> O, call: impl Fn(&O, &mut Sm, usize) -> Tree) -> Tree {
+    let run = |op: &O, mut rng: Sm, variant: usize| {
+        let r: Vec<Tree> = (0..3).map(|_| call(op, &mut rng, variant)).collect();
+        tl![L(r), a(rng.next())]
+    };
+    tl![run(&mk(), Sm::new(seed), 0), run(&mk(), Sm::new(seed), 1), run(&mk(), Sm::new(seed), 2)]
+}
+/// a copy of `v` with `extra` spare capacity
+fn roomy<T: Clone>(v: &[T], extra: usize) -> Vec<T> {
+    let mut out = Vec::with_capacity(v.len() + extra);
+    out.extend_from_slice(v);
+    out
 }
 fn ints(v: &[i64]) -> Tree {
     L(v.iter().map(|x| a(*x)).collect())
@@ -107,7 +122,14 @@ fn run_op(op: usize, seed: u64, data: &[i64]) -> Option<Tree> {
             Err(e) => tl![A(1), a(e.0)],
         }))
     };
+    // (first parent spare capacity, second parent spare capacity) per run variant
+    let rooms = [(0usize, 0usize), (0, 17), (23, 0)];
     Some(match op {
+        31 => triple_args(seed, || TwoPointXo, |m, rng, v| res(m.recombine([roomy(&g64, rooms[v].0), roomy(&g2, rooms[v].1)], rng), |c| ints(&c))),
+        32 => triple_args(seed, || TwoPointXo, |m, rng, v| res(m.recombine((roomy(&g64, rooms[v].0), roomy(&g2, rooms[v].1)), rng), |c| ints(&c))),
+        33 => triple_args(seed, || UniformXo, |m, rng, v| res(m.recombine([roomy(&g64, rooms[v].0), roomy(&g2, rooms[v].1)], rng), |c| ints(&c))),
+        34 => triple_args(seed, || WithOneOverLength, |m, rng, v| bits(&m.mutate(roomy(&gb[..1.max(gb.len() % 3)], rooms[v].0 + rooms[v].1), rng).unwrap())),
+        35 => triple_args(seed, || WithRate::new(0.3), |m, rng, v| bits(&m.mutate(roomy(&gb, rooms[v].0 + rooms[v].1), rng).unwrap())),
         26 => sel_big(tl![A(3), A(2)])?,
         27 => sel_big(tl![A(3), A(3)])?,
         28 => sel_big(tl![A(4), A(2)])?,
@@ -301,6 +323,14 @@ fn gen(tier: &str, rng: &mut Sm) -> Gen {
         if k >= (if tier == "thorough" { 600 } else { 80 }) {
             break;
         }
+    }
+    // a LONG evaluation (a counting loop of 1.2 million steps, about a second of wall-clock time): the outcome is a
+    // function of the program, the inputs and the limits - not of how long the evaluation takes
+    {
+        let strings = L(vec![]);
+        let block = tl![A(100), tl![A(6), A(1)], tl![A(13), A(0)], tl![A(27)]];
+        let state = tl![A(10), L(vec![tl![A(27)], block]), A(5), L(vec![A(0)]), A(2), L(vec![]), A(2), L(vec![]), L(vec![]), au(1_200_001)];
+        g.inputs.push(tl![A(1), strings, state, A(0)]);
     }
     g.meta("generator", format!("{NOPS} operators / generators / compositions of the three crates x {reps} seeds (fresh value twice, used value once, three consecutive calls each, next generator word compared); Push programs with 2-3 bound inputs under every permutation of the declarations, each built state run twice"));
     g
